@@ -184,6 +184,21 @@ def observe_field(p, pd, req):
     if npts > 2:
         other = field_call(p, q, c, xs[:npts - 2], ys[:npts - 2], NL)
         ok = ok and all(np.array_equal(a[:npts - 2], b) for a, b in zip(base, other))
+    # 2-D point arrays of every memory layout: out[i, j] belongs to (xs[i, j], ys[i, j])
+    if npts >= 4:
+        rows = 2
+        cols = npts // rows
+        k = rows * cols
+        X, Y = xs[:k].reshape(rows, cols), ys[:k].reshape(rows, cols)
+        for lx, ly in ((np.ascontiguousarray, np.ascontiguousarray), (np.asfortranarray, np.asfortranarray),
+                       (np.asfortranarray, np.ascontiguousarray)):
+            raw = (p.uvw(c, xs=lx(X), ys=ly(Y)) if q == "uvw" else
+                   (lambda res: [res[kk] for kk in FIELD_KEYS[q]])(
+                       p.strain(c, xs=lx(X), ys=ly(Y), NLterms=NL) if q == "strain" else
+                       p.stress(c, xs=lx(X), ys=ly(Y), NLterms=NL)))
+            for a, full in zip(raw, base):
+                a = np.asarray(a, dtype=float)
+                ok = ok and a.shape == (rows, cols) and np.array_equal(a, full[:k].reshape(rows, cols))
     ok = ok and np.array_equal(c, c0)          # the caller's amplitude vector is not modified
     obs = [[dyadic(comp[k]) for comp in base] for k in range(npts)]
     return obs, bool(ok)
@@ -197,6 +212,23 @@ def gauss_orders(pd, req):
     return nx, ny
 
 
+_GAUSS = {}
+
+
+def gauss_points(n):
+    """the Gauss-Legendre points the package itself uses (compmech/lib/src via ctypes)"""
+    if n not in _GAUSS:
+        import ctypes
+        import repo_env
+        lib = ctypes.CDLL(repo_env.activate()["libbardell"])
+        pts = (ctypes.c_double * n)()
+        wts = (ctypes.c_double * n)()
+        lib.leggauss_quad.restype = None
+        lib.leggauss_quad(ctypes.c_int(n), pts, wts)
+        _GAUSS[n] = list(pts)
+    return _GAUSS[n]
+
+
 def observe_nl(p, pd, req, kw):
     q = req["q"]
     c = np.array([float(fr(v)) for v in req["c"]])
@@ -205,7 +237,13 @@ def observe_nl(p, pd, req, kw):
     p.calc_k0(silent=True)                # documented order: derives the laminate matrix F
     F = np.array(p.F, dtype=float)
     F0 = F.copy()
-    Fn = np.ascontiguousarray(np.tile(F, (nx, ny, 1, 1))) if req.get("table") else None
+    Fn = None
+    if req.get("table") or req.get("taper"):
+        # per-point laminate table F(xi_i, eta_j) = (t0 + tx xi_i + ty eta_j) F at the rule's own Gauss points
+        t0, tx, ty = (float(fr(v)) for v in req["taper"]) if req.get("taper") else (1., 0., 0.)
+        xg, yg = gauss_points(nx), gauss_points(ny)
+        Fn = np.ascontiguousarray(np.array([[(t0 + tx * xg[i] + ty * yg[j]) * F for j in range(ny)] for i in range(nx)]))
+    Fn0 = None if Fn is None else Fn.copy()
     k2 = dict(kw)
     if q == "fint":
         if k2:
@@ -220,7 +258,7 @@ def observe_nl(p, pd, req, kw):
         out = [[dyadic(v) for v in row] for row in M.toarray()]
     ok = np.array_equal(c, c0) and np.array_equal(np.array(p.F, dtype=float), F0)     # caller inputs untouched
     if Fn is not None:
-        ok = ok and np.array_equal(Fn, np.tile(F0, (nx, ny, 1, 1)))
+        ok = ok and np.array_equal(Fn, Fn0)
     return out, bool(ok)
 
 
@@ -247,7 +285,7 @@ def observe_load(p, pd, req, kw):
 def jreq(r):
     out = dict(q=r["q"], size=r.get("size", 0), row0=r.get("row0", 0), col0=r.get("col0", 0))
     for k in ("N", "flow", "beta", "gamma", "aeromu", "c", "pts", "NL", "forces", "forcesInc", "inc", "cores", "num", "extra", "table",
-              "mach", "root", "rho", "V", "ainf", "via", "k0first"):
+              "mach", "root", "rho", "V", "ainf", "via", "k0first", "taper"):
         if k in r:
             out[k] = r[k]
     return out
@@ -286,8 +324,13 @@ def random_pd(rng, models):
         fl.append(row)
     stack, off = c01.random_def(rng)
     stack = stack[:4]
-    if rng.random() < 0.5:
+    u = rng.random()
+    if u < 0.5:
         y1, y2 = Fraction(0), b
+    elif u < 0.62 and a < b:
+        y1, y2 = Fraction(0), a           # coincidence of unrelated lengths: the strip ends at y = a
+    elif u < 0.68 and model in ("cpanel", "kpanel") and r < b:
+        y1, y2 = Fraction(0), r
     else:
         f1 = Fraction(rng.randint(0, 6), 8)
         f2 = Fraction(rng.randint(int(f1 * 8) + 1, 8), 8)
@@ -347,6 +390,8 @@ def random_req(rng, pd, q):
         r["c"] = [rat(Fraction(rng.randint(-8, 8), 16 * amp)) for _ in range(size)]
         r["extra"] = [rng.choice([0, 0, 1, 3, 9]), rng.choice([0, 0, 2, 5])]
         r["table"] = rng.random() < 0.4
+        if rng.random() < 0.5:
+            r["taper"] = [rat(1), rat(Fraction(rng.randint(-3, 3), 8)), rat(Fraction(rng.randint(-3, 3), 8))]
         if q == "kGc":
             r["NL"] = rng.random() < 0.5
     if q in ("fext", "static"):
@@ -385,12 +430,13 @@ INVS = {
     "cA": ["SymmetricOut", "OnlyW"],
     "kAmach": ["MachRootOk", "OnlyW", "ScaleDominatesOut"],
     "uvw": [], "strain": [], "stress": ["StrainEnergyNonNegative"], "fext": ["VirtualWork"], "static": [],
-    "fint": ["AtRest", "ForceIsEnergyGradient"], "kT": ["AtRest", "TangentSymmetric", "TangentIsJacobian", "SymmetricOut"],
+    "fint": ["AtRest", "ForceIsEnergyGradient"],
+    "kT": ["AtRest", "TangentSymmetric", "TangentIsJacobian", "TaperedTangentIsJacobian", "SymmetricOut"],
     "kGc": ["SymmetricOut", "OnlyW", "UniformStressReproducesConstant"],
 }
 
 
-def run_prop(prop, qs, tier, seed, build, nrand_quick=40, nrand_thorough=600, what="", extra_observed=()):
+def run_prop(prop, qs, tier, seed, build, nrand_quick=40, nrand_thorough=600, what="", extra_observed=(), extra_violations=()):
     rep = Report(prop, tier, seed)
     rng = random.Random(seed)
     kfs = open_deviations(prop)
@@ -451,6 +497,8 @@ def run_prop(prop, qs, tier, seed, build, nrand_quick=40, nrand_thorough=600, wh
         eid += 2
         groups.append(g)
         rep.nontrivial(key_of(pd, r))
+    for what_, rp in extra_violations:
+        rep.violation(what_, rp)
     for (pd, r, obs, ok) in extra_observed:      # already observed by the caller (e.g. through an assembly)
         g = [dict(ev="define", id=eid, pd=pd), dict(ev="eval", id=eid + 1, req=r, obs=obs, flags_ok=ok)]
         meta[eid + 1] = (pd, r)
@@ -489,3 +537,36 @@ def run_prop(prop, qs, tier, seed, build, nrand_quick=40, nrand_thorough=600, wh
     rep.assumptions += ["tolerance 2^-%d of the term-magnitude scale the specification computes" % TOL,
                         "generated kernels (.pyx) are those loaded; lib/src and .py are rebuilt from the working tree"]
     return rep.finish()
+
+
+def replay_file(prop, path, build):
+    """re-execute a stored violation: observe the <<definition, request>> again on the real code and let TLC judge it"""
+    import json
+    rp = json.load(open(path))["replay"]
+    if "pd" not in rp or "req" not in rp:
+        print("replay file has no <<definition, request>> pair; re-run the check with the same VERIF_SEED instead")
+        return 2
+    pd, r = rp["pd"], rp["req"]
+    kfs = open_deviations(prop)
+    try:
+        obs, ok = observe(pd, r)
+    except Exception as ex:
+        print("VIOLATION property=%s replay=%s" % (prop, path))
+        print("  still raises %s: %s" % (type(ex).__name__, str(ex)[:200]))
+        return 1
+    ev = dict(ev="eval", id=1, req=r, obs=obs, flags_ok=ok)
+    if r["q"] in ("fint", "kT", "kGc"):
+        ev["tol"] = 34
+    tcfg = ("CONSTANTS\nNFun = 8\nDeviations = {}\nTol = %d\nTolSolve = 30\nOpenKF = {%s}\n"
+            % (TOL, ", ".join('"%s"' % k for k in kfs)))
+    verdicts, results, problems = validate_trace(prop.lower() + "-rp", "Trace_PanelModel", tcfg,
+                                                 [[dict(ev="define", id=0, pd=pd), ev]], judged=lambda e: e["ev"] == "eval")
+    v = verdicts.get(1)
+    if problems or not v:
+        print("MACHINERY-ERROR", prop, problems)
+        return 2
+    print("replayed verdict:", v[0], str(v[1])[:300])
+    if v[0] == "fail":
+        print("VIOLATION property=%s replay=%s" % (prop, path))
+        return 1
+    return 0
